@@ -63,6 +63,9 @@ func (s *seqRun) coherenceInodes(after string) {
 		return
 	}
 	s.waitIdle()
+	if s.srv.VerifShrinker().VerifNthread() != 0 {
+		return // a background shrinker is still at work (it changes cached inodes in place under their locks): not a quiescent point
+	}
 	st := s.srv.VerifFsState()
 	cached := peekCache(st.Icache)
 	for inum, ip := range cached {
